@@ -1,5 +1,5 @@
 SPECIFICATION GenSpec
-CONSTANTS NH = 2 Gran = 2 Hdr = 64 PChunk = 64 MaxLen = 3 MaxArg = 3 Prune = TRUE MaxDepth = 7
+CONSTANTS NH = 3 Gran = 2 Hdr = 64 PChunk = 64 MaxLen = 3 MaxArg = 3 Prune = TRUE MaxDepth = 7
 CONSTRAINT Bound
 VIEW Skel
 ACTION_CONSTRAINT Emit
